@@ -1,6 +1,10 @@
 """C18  Reduced-form VAR estimates are the least-squares solution, reproduce the data."""
 from __future__ import annotations
 
+import os
+for _v in ("OMP_NUM_THREADS", "OPENBLAS_NUM_THREADS", "MKL_NUM_THREADS"):
+    os.environ.setdefault(_v, "1")      # tiny matrices: BLAS threads only add contention
+
 import contextlib
 import itertools
 import json
@@ -599,7 +603,7 @@ def _tolerance_confirmed(spec, res, codes) -> bool:
 
 def correspondence(ctx) -> CorrResult:
     rng = ctx.rng
-    n_specs = ctx.scale(170, 4000)
+    n_specs = ctx.scale(130, 4000)
     specs = [gen_spec(rng, nodata=(i % 29 == 28)) for i in range(n_specs)]
     res = CorrResult()
     dist = {"n": {}, "m": {}, "order": {}, "intercept": {}, "dof": {}, "priors": {}, "variants": {}, "freq": {},
@@ -645,8 +649,16 @@ def correspondence(ctx) -> CorrResult:
     res.samples = [{"spec": {k_: v_ for k_, v_ in s.items() if k_ != "data"}, "variant": v,
                     "impl": None if o is None else {"A": o["A"].tolist(), "fitted": o["fitted"]}}
                    for s, v, o in items[:3]]
-    per = 6
-    shards = [items[i:i + per] for i in range(0, len(items), per)]
+    # few, balanced shards: loading Bignums costs seconds per coqc process
+    nshards = max(1, min(len(items), max(core.NCPU, -(-len(items) // 24))))
+    weight = lambda it: 1 + (it[0]["n"] * it[0]["p"]) ** 4 // 40 + it[0]["N"] // 4
+    shards = [[] for _ in range(nshards)]
+    loads = [0] * nshards
+    for it in sorted(items, key=weight, reverse=True):
+        j = loads.index(min(loads))
+        shards[j].append(it)
+        loads[j] += weight(it)
+    shards = [sh for sh in shards if sh]
     texts = [shard_text(sh) for sh in shards]
     results = core.run_cases(ctx, texts)
     res.shards = len(texts)
@@ -742,7 +754,7 @@ def falsify(ctx, hints):
         if isinstance(inp, dict) and "spec" in inp:
             info["from_disagreements"] += 1
             fails += property_checks(inp["spec"], run_impl(inp["spec"]))
-    n = ctx.scale(150, 3000)
+    n = ctx.scale(120, 3000)
     for it in range(n):
         spec = gen_spec(rng, nodata=False)
         res = run_impl(spec)
